@@ -28,6 +28,7 @@ class DType:
         self.capacity = None       # string types
         self.overlapped = False    # BOOL members alias bits of visible members (module-defined types)
         self.bare_name = False     # predefined types of newer firmware: the template's first string is the bare type name (no ";n...")
+        self.template_name = None  # name inside the template when it differs from the user-visible one (builtin STRING: "ASCIISTRING82")
         self._desc = None
 
     @property
@@ -100,7 +101,7 @@ class DType:
         if self.bare_name and self.predefined:
             out += self.name.encode("ascii") + b"\x00"
         else:
-            out += f"{self.name};n{self.handle:X}".encode("ascii") + b"\x00"
+            out += f"{self.template_name or self.name};n{self.handle:X}".encode("ascii") + b"\x00"
         for m in self.members:
             out += m.name.encode("ascii") + b"\x00"
         return out
@@ -345,7 +346,17 @@ def generate_project(rng, size="small", fw=None, micro800=False):
         nm = "STRING" if cap == 82 else f"STR{cap}" if rng.random() < 0.7 else _name(rng, used_names, 8)
         if nm in prj.types:
             continue
-        pool.append(make_string_type(prj, rng, nm, cap, used_ids))
+        st_ = make_string_type(prj, rng, nm, cap, used_ids)
+        pool.append(st_)
+        if nm == "STRING" and rng.random() < 0.5:
+            # the builtin STRING as real controllers report it: template name ASCIISTRING82, predefined-range template id 0xFCE
+            st_.template_name = "ASCIISTRING82"
+            if 0xFCE not in used_ids["template"] and rng.random() < 0.7:
+                del prj.by_template[st_.template_id]
+                used_ids["template"].discard(st_.template_id)
+                st_.template_id = 0xFCE
+                used_ids["template"].add(0xFCE)
+                prj.by_template[0xFCE] = st_
     for i in range(ntypes):
         nm = _name(rng, used_names, rng.choice([3, 8, 15, 24, 40]))
         depth = rng.choice([0, 1, 2, 3])
